@@ -1,0 +1,10 @@
+//go:build !verif
+// +build !verif
+
+package leveldb
+
+// No-op hook points of the range-compaction / auto-compaction export; empty and inlined away when the verif tag is off.
+
+func verifRangeEv(s *session, kind, arg int, umin, umax []byte, c *compaction) {}
+
+func verifAutoPick(s *session, v *version, sourceLevel int, t0 tFiles, typ int) {}
